@@ -104,6 +104,7 @@ def _env():
         return _E
     from fastapi.testclient import TestClient
 
+    import nemoguardrails  # noqa: F401
     from nemoguardrails.server import api
 
     e = _Env()
@@ -160,6 +161,22 @@ def _env():
     atexit.register(_close_client, e.client)
     _E = e
     return e
+
+
+def setup_worker():
+    _env()
+
+
+def _imports():
+    # the import takes seconds: do it when the module is loaded, not under the per-case watchdog
+    import fastapi.testclient  # noqa: F401
+
+    import nemoguardrails  # noqa: F401
+    import nemoguardrails.server.api  # noqa: F401
+    import nemoguardrails.server.datastore.memory_store  # noqa: F401
+
+
+_imports()
 
 
 def _reset(e):
